@@ -49,7 +49,11 @@ func newAuthSpec(r *RNG, origin string, cred *KeyPair, credID, owner, pk []byte)
 	}
 	if r.P(1, 5) {
 		s.Flags |= 0x80
-		s.Ext = cborMap(cborText("appid"), []byte{0xf5})
+		// authenticator extension outputs as getAssertion produces them (hmac-secret and credBlob are BYTE STRINGS here, booleans at
+		// registration): nothing the ceremony asked for, nothing it may stumble over
+		s.Ext = pick(r, [][]byte{cborMap(cborText("appid"), []byte{0xf5}), cborMap(cborText("hmac-secret"), cborBytes(r.Bytes(pick(r, []int{48, 80})))),
+			cborMap(cborText("credBlob"), cborBytes(r.Bytes(1+r.Intn(32)))), cborMap(cborText("hmac-secret"), cborBytes(r.Bytes(48)), cborText("credBlob"), cborBytes(nil), cborText("thirdPartyPayment"), []byte{0xf5}),
+			cborMap(cborText("uvm"), cborArray(cborArray(cborInt(2), cborInt(4), cborInt(2)))), cborMap()})
 	}
 	if r.P(1, 3) {
 		s.CDExtra = benignCDExtra(r)
